@@ -82,6 +82,8 @@ func main() {
 		}
 	case "gen":
 		genMain(os.Args[2:])
+	case "luafile":
+		luafileMain(os.Args[2:])
 	case "show":
 		showMain(os.Args[2:])
 	case "shrink":
